@@ -44,7 +44,7 @@ func (w *world) emit(ev any) {
 			w.tr.Emit(common.Ev{"ev": e.Ev, "op": e.Op, "d": e.D, "n": e.N, "d2": e.D2, "n2": e.N2, "a": e.A, "b": e.B,
 				"c": e.C, "k": e.K, "t": e.T, "ck": e.Ck, "page": e.Page, "sid": e.Sid, "first": e.First, "new": e.New,
 				"ch": e.Ch, "st": e.St, "ret": e.Ret, "ci": e.Ci, "ci2": e.Ci2, "list": e.List, "list2": e.List2,
-				"more": e.More, "cb": e.Cb, "rm": e.Rm, "proj": e.Proj, "leaves": e.Leaves})
+				"more": e.More, "oak": e.Oak, "ochg": e.Ochg, "cb": e.Cb, "rm": e.Rm, "proj": e.Proj, "leaves": e.Leaves})
 		}
 	}
 }
@@ -68,7 +68,7 @@ var fileTypes = map[string]filesystem.FileType{
 // returns the event; w.broken is set if the real code panicked.
 func (w *world) do(o op) (c call) {
 	c = call{Ev: "call", Op: o.Op, D: o.D, N: o.N, D2: o.D2, N2: o.N2, A: o.A, B: o.B, C: o.C, K: o.K, T: o.T,
-		Ck: o.Ck, Page: o.Page, Sid: o.Sid, First: o.First, New: -1, Ch: normCh(o.Ch), St: "?",
+		Ck: o.Ck, Page: o.Page, Sid: o.Sid, First: o.First, New: -1, Ch: normCh(o.Ch), St: "?", Ochg: -1,
 		Ret: ret{K: "none", C: -1}, List: []ent{}, List2: []ent{}, Cb: []cbRec{}, Rm: []int{},
 		Proj: []dirProj{}, Leaves: []leafProj{}}
 	defer func() {
@@ -94,10 +94,21 @@ func (w *world) do(o op) (c call) {
 	enterKnown := true
 	switch o.Op {
 	case "lookup":
-		ch, s := d.VirtualLookup(ctx, comp(o.N), leafMask, &a)
+		// o.A: also ask for the change id (as an NFSv4 client does), which
+		// makes the real code lock the child directory.
+		mask := leafMask
+		if o.A {
+			mask |= virtual.AttributesMaskChangeID
+		}
+		ch, s := d.VirtualLookup(ctx, comp(o.N), mask, &a)
 		c.St = statusName(s)
 		if s == virtual.StatusOK {
-			takeChild(ch.GetPair())
+			dir, leaf := ch.GetPair()
+			takeChild(dir, leaf)
+			c.Oak = kindOf(a.GetFileType())
+			if o.A && dir != nil {
+				c.Ochg = int(a.GetChangeID())
+			}
 		}
 	case "lookupchild":
 		ch, err := d.LookupChild(comp(o.N))
@@ -164,8 +175,12 @@ func (w *world) do(o op) (c call) {
 		x, y, s := d.VirtualRename(ctx, comp(o.N), w.dirs[o.D2], comp(o.N2))
 		c.St, c.Ci, c.Ci2 = statusName(s), ci(x), ci(y)
 	case "readdir":
-		r := pageReporter{cap: o.Page}
-		s := d.VirtualReadDir(ctx, o.Ck, virtual.AttributesMaskFileType|virtual.AttributesMaskInodeNumber, &r)
+		r := pageReporter{cap: o.Page, locked: o.A}
+		mask := virtual.AttributesMaskFileType | virtual.AttributesMaskInodeNumber
+		if o.A {
+			mask |= virtual.AttributesMaskChangeID
+		}
+		s := d.VirtualReadDir(ctx, o.Ck, mask, &r)
 		c.St, c.More = statusName(s), r.more
 		rawList = r.ents
 		for _, e := range r.ents {
@@ -566,7 +581,7 @@ func (g *gen) next() op {
 		// look again at a directory that was just emptied
 		d := g.revisit
 		g.revisit = 0
-		return []op{{Op: "lookup", D: d, N: g.name()}, {Op: "readdir", D: d, Page: 3, Sid: -1}, {Op: "listall", D: d}}[r.Intn(3)]
+		return []op{{Op: "lookup", D: d, N: g.name(), A: r.Intn(2) == 0}, {Op: "readdir", D: d, Page: 3, Sid: -1, A: r.Intn(2) == 0}, {Op: "listall", D: d}}[r.Intn(3)]
 	}
 	g.revisit = 0
 	for {
@@ -610,10 +625,11 @@ func (g *gen) next() op {
 			if r.Intn(3) > 0 && len(ids) > 3 {
 				o.C = ids[len(ids)-1-r.Intn(3)]
 			}
-		case k < 38:
-			o.Op = []string{"lookup", "lookupchild"}[r.Intn(2)]
+		case k < 40:
+			o.Op = []string{"lookup", "lookup", "lookupchild"}[r.Intn(3)]
 			o.N = existing
-		case k < 48:
+			o.A = o.Op == "lookup" && r.Intn(2) == 0
+		case k < 49:
 			o.Op = "vremove"
 			o.N = existing
 			switch r.Intn(4) {
@@ -637,7 +653,7 @@ func (g *gen) next() op {
 				continue
 			}
 		case k < 65:
-			o.Op, o.Page = "readdir", 1+r.Intn(3)
+			o.Op, o.Page, o.A = "readdir", 1+r.Intn(3), r.Intn(2) == 0
 			if cs := w.cookies[d]; len(cs) > 0 && r.Intn(4) > 0 {
 				o.Ck = cs[r.Intn(len(cs))]
 				if r.Intn(8) == 0 {
@@ -652,7 +668,7 @@ func (g *gen) next() op {
 				*s = session{on: true, d: d, ck: 0, page: 1 + r.Intn(3)}
 				o.First = true
 			}
-			o.Op, o.D, o.Ck, o.Page, o.Sid = "readdir", s.d, s.ck, s.page, sid
+			o.Op, o.D, o.Ck, o.Page, o.Sid, o.A = "readdir", s.d, s.ck, s.page, sid, r.Intn(2) == 0
 		case k < 77:
 			o.Op, o.K = "setattr", []string{"size", "owner", "other"}[r.Intn(3)]
 		case k < 80:
